@@ -466,7 +466,7 @@ def foreign_strategy(tier):
     from vlib import proggen
 
     return st.fixed_dictionaries(
-        {"prog": st.one_of(proggen.programs(size=10 if tier == "quick" else 20, max_depth=2), proggen.programs(size=14, max_depth=1, roots=("module",), detached=False, call_bias=True)), "rewrites": st.one_of(st.lists(st.integers(0, 6), min_size=1, max_size=4, unique=True), st.lists(st.integers(1, 6), max_size=3, unique=True).map(lambda r: [0] + r)), "k": st.integers(0, 5)}
+        {"prog": st.one_of(proggen.programs(size=10 if tier == "quick" else 20, max_depth=2), proggen.programs(size=14, max_depth=1, roots=("module",), detached=False, call_bias=True), proggen.programs(size=12, max_depth=1, roots=("cfg",), detached=False)), "rewrites": st.one_of(st.lists(st.integers(0, 7), min_size=1, max_size=4, unique=True), st.lists(st.integers(1, 7), max_size=3, unique=True).map(lambda r: [0] + r)), "k": st.integers(0, 5)}
     )
 
 
@@ -483,7 +483,7 @@ SUBS = [
         n_quick=120, n_thorough=1500, sample_ok=lambda c: len(json.dumps(c)) < 3000),
     Sub("order-ports", check_order_ports, strategy=order_ports_strategy, nontrivial=lambda c: c["op"]["k"] in ("Call", "LoadFunc", "LoadConst", "CallIndirect") or bool(c["rewrites"]),
         classes=lambda c: [c["op"]["k"]] + (["without-offsets"] if 0 in c["rewrites"] else []), n_quick=300, n_thorough=3000),
-    Sub("foreign", check_foreign, strategy=foreign_strategy, nontrivial=lambda c: True, classes=lambda c: ["rewrite:" + ["null-order", "general-unit", "drop-defaults", "metadata-holes", "encoder+key-order", "extra-attributes", "hierarchy-order"][i % 7] for i in c["rewrites"]],
+    Sub("foreign", check_foreign, strategy=foreign_strategy, nontrivial=lambda c: True, classes=lambda c: ["rewrite:" + ["null-order", "general-unit", "drop-defaults", "metadata-holes", "encoder+key-order", "extra-attributes", "hierarchy-order", "parallel-edge"][i % 8] for i in c["rewrites"]],
         n_quick=250, n_thorough=2000, sample_ok=lambda c: len(json.dumps(c)) < 3000),
     Sub("types", check_type, strategy=lambda tier: asts.types(3 if tier == "quick" else 4).map(lambda t: {"t": t}), nontrivial=nt_depth("t"),
         classes=lambda c: [c["t"]["k"]], n_quick=1200, n_thorough=8000),
